@@ -161,7 +161,145 @@ def gen_composite(repo):
     return "\n".join(out)
 
 
-UNITS = {"Gen_standardiser.v": gen_standardiser, "Gen_controllers.v": gen_controllers, "Gen_guard.v": gen_guard,
+def gen_registry(repo):
+    """MetaRunner.register_payload / _manage_runners / _launch_runners / _unqueue_payloads / _aclose_runners as
+    `list rstmt` (kit/RegistryIR.v).  Pure transcription of syntax; every statement that is not one of the
+    recognised forms raises TranslationError (logging calls and docstrings are dropped)."""
+    with open(os.path.join(repo, "src", "cobald", "daemon", "runners", "meta_runner.py")) as fh:
+        tree = ast.parse(fh.read())
+
+    def src(e):
+        return ast.unparse(e).replace(" ", "")
+
+    def is_log(x):
+        return (isinstance(x, ast.Expr) and isinstance(x.value, ast.Call)
+                and src(x.value.func).startswith("self._logger."))
+
+    def is_doc(x):
+        return isinstance(x, ast.Expr) and isinstance(x.value, ast.Constant) and isinstance(x.value.value, str)
+
+    def block(stmts, ctx):
+        items = [stmt(x, ctx) for x in stmts if not is_log(x) and not is_doc(x)]
+        return "[" + "; ".join(i for i in items if i) + "]"
+
+    def stmt(x, ctx):
+        t = src(x)
+        if isinstance(x, ast.With):
+            if len(x.items) != 1 or src(x.items[0].context_expr) != "self._register_lock" or x.items[0].optional_vars:
+                raise TranslationError("unsupported with: %s" % t[:60])
+            return "SWithLock %s" % block(x.body, ctx)
+        if isinstance(x, ast.Try) and ctx == "register":
+            if (len(x.body) != 1 or src(x.body[0]) != "runner=self._runners[flavour]" or len(x.handlers) != 1
+                    or x.finalbody or src(x.handlers[0].type) != "KeyError" or x.handlers[0].name):
+                raise TranslationError("unsupported try in register_payload")
+            return "STryLookup %s %s" % (block(x.orelse, ctx), block(x.handlers[0].body, ctx))
+        if isinstance(x, ast.If) and src(x.test) == "self.running.is_set()":
+            return "SIfRunning %s %s" % (block(x.body, ctx), block(x.orelse, ctx))
+        if isinstance(x, ast.If) and src(x.test) == "notself.running.is_set()":
+            return "SIfRunning %s %s" % (block(x.orelse, ctx), block(x.body, ctx))
+        if isinstance(x, ast.Raise):
+            if x.exc is None:
+                return "SReraise"
+            if isinstance(x.exc, ast.Call) and src(x.exc.func) == "RuntimeError" and ctx == "register":
+                return "SRaiseUnknown"
+            raise TranslationError("unsupported raise: %s" % t[:60])
+        if isinstance(x, ast.Return):
+            if x.value is None:
+                return "SReturn"
+            if src(x.value) == "runner_tasks" and ctx == "launch":
+                return "SReturnTasks"
+            raise TranslationError("unsupported return: %s" % t[:60])
+        if t == "self._runner_queues.setdefault(flavour,[]).extend(payloads)":
+            return "SQueueExtend"
+        if isinstance(x, ast.For) and ctx == "register":
+            body = [b for b in x.body if not is_log(b)]
+            if (src(x.target) == "payload" and src(x.iter) == "payloads" and not x.orelse and len(body) == 1
+                    and src(body[0]) == "runner.register_payload(payload)"):
+                return "SForPayloadsHand"
+            raise TranslationError("unsupported loop in register_payload")
+        if t == "runner_tasks=awaitself._launch_runners()":
+            return "SAwaitLaunch"
+        if t == "self.running.set()":
+            return "SSetRunning"
+        if t == "self.running.clear()":
+            return "SClearRunning"
+        if t in ("self._runners.clear()", "self._runners={}", "self._runners=dict()"):
+            return "SClearTable"
+        if t == "awaitasyncio.gather(*runner_tasks,self._unqueue_payloads())":
+            return "SGatherFlush"
+        if t == "awaitasyncio.shield(self._aclose_runners(runner_tasks))":
+            return "SShieldAclose"
+        if t == "awaitasyncio.gather(*runner_tasks,return_exceptions=True)":
+            return "SAwaitTasks"
+        if isinstance(x, ast.Try) and ctx == "manage":
+            hs = {src(h.type): h for h in x.handlers if h.type is not None and not h.name}
+            if len(hs) != len(x.handlers) or set(hs) != {"KeyboardInterrupt", "BaseException"} or x.orelse:
+                raise TranslationError("unsupported handlers in _manage_runners")
+            if [src(h.type) for h in x.handlers] != ["KeyboardInterrupt", "BaseException"]:
+                raise TranslationError("handler order in _manage_runners")
+            return "STryRun %s %s %s %s" % (block(x.body, ctx), block(hs["KeyboardInterrupt"].body, ctx),
+                                            block(hs["BaseException"].body, ctx), block(x.finalbody, ctx))
+        if isinstance(x, ast.Assert) and src(x.test) == "self.running.is_set()":
+            return "SAssertRunning"
+        if t == "runner_queues,self._runner_queues=(self._runner_queues,{})":
+            return "SSwapQueues"
+        if isinstance(x, ast.For) and ctx == "unqueue":
+            if (src(x.target) == "(flavour,queue)" and src(x.iter) == "runner_queues.items()" and len(x.body) == 1
+                    and src(x.body[0]) == "self.register_payload(*queue,flavour=flavour)"):
+                return "SReregisterAll"
+            raise TranslationError("unsupported loop in _unqueue_payloads")
+        if isinstance(x, ast.For) and ctx == "aclose":
+            if (src(x.target) == "runner" and src(x.iter) == "self._runners.values()" and len(x.body) == 1
+                    and src(x.body[0]) == "awaitrunner.aclose()"):
+                return "SAcloseAll"
+            raise TranslationError("unsupported loop in _aclose_runners")
+        if ctx == "launch":
+            # the creation loop: runners (or self._runners) filled while the tasks are created
+            if t in ("asyncio_loop=asyncio.get_event_loop()", "runner_tasks=[]"):
+                return None
+            if t == "runners={}":
+                return None
+            if isinstance(x, ast.For) and src(x.iter) == "self.runner_types":
+                body = [src(b) for b in x.body]
+                if body == ["runner=runners[runner_type.flavour]=runner_type(asyncio_loop)",
+                            "runner_tasks.append(asyncio_loop.create_task(runner.run()))"]:
+                    return "SLaunchLocal"
+                if body == ["runner=self._runners[runner_type.flavour]=runner_type(asyncio_loop)",
+                            "runner_tasks.append(asyncio_loop.create_task(runner.run()))"]:
+                    return "SLaunchLocal; SPublishEach"
+                raise TranslationError("unsupported creation loop in _launch_runners")
+            if isinstance(x, ast.For) and src(x.iter) in ("runners.values()", "self._runners.values()"):
+                if [src(b) for b in x.body] == ["awaitrunner.ready()"]:
+                    return "SAwaitReady"
+                raise TranslationError("unsupported loop in _launch_runners")
+            if t == "self._runners=runners":
+                return "SPublishLocal"
+        raise TranslationError("unsupported statement in %s: %s" % (ctx, t[:80]))
+
+    progs = []
+    for name, ctx in (("register_payload", "register"), ("_manage_runners", "manage"), ("_launch_runners", "launch"),
+                      ("_unqueue_payloads", "unqueue"), ("_aclose_runners", "aclose")):
+        fn = find_function(tree, name, cls="MetaRunner")
+        progs.append("Definition ir_%s : list rstmt :=\n  %s." % (ctx, block(fn.body, ctx)))
+    # the registry must not be touched anywhere else in the class (stop() and run_payload only read it)
+    allowed = {"register_payload", "_manage_runners", "_launch_runners", "_unqueue_payloads", "_aclose_runners", "__init__"}
+    for n in ast.walk(tree):
+        if isinstance(n, (ast.FunctionDef, ast.AsyncFunctionDef)) and n.name not in allowed:
+            for m in ast.walk(n):
+                if isinstance(m, (ast.Assign, ast.AugAssign, ast.Delete)):
+                    tgt = " ".join(src(t_) for t_ in (m.targets if hasattr(m, "targets") else [m.target]))
+                    if "self._runners" in tgt or "self._runner_queues" in tgt:
+                        raise TranslationError("%s writes the registry" % n.name)
+                if isinstance(m, ast.Call) and src(m.func) in ("self._runners.clear", "self._runners.pop", "self._runners.update",
+                                                               "self._runner_queues.clear", "self._runner_queues.pop"):
+                    raise TranslationError("%s writes the registry" % n.name)
+    return ("(* GENERATED on every run by py2coq from src/cobald/daemon/runners/meta_runner.py -- do not edit *)\n"
+            "From Coq Require Import List.\nImport ListNotations.\nFrom Cobald Require Import kit.RegistryIR.\n\n"
+            + "\n\n".join(progs)
+            + "\n\nDefinition registry_irs : irs := mkIrs ir_register ir_manage ir_launch ir_unqueue ir_aclose.\n")
+
+
+UNITS = {"Gen_registry.v": gen_registry, "Gen_standardiser.v": gen_standardiser, "Gen_controllers.v": gen_controllers, "Gen_guard.v": gen_guard,
          "Gen_composite.v": gen_composite}
 
 
